@@ -9,6 +9,7 @@ DRIVER = os.path.join(ROOT, 'coq', 'extraction', 'driver')
 COQ = os.path.join(ROOT, 'coq')
 REPO = '/repo'
 NPROC = 16
+os.environ.setdefault('UV_ARCH', {'x86_64': 'x86_64', 'aarch64': 'aarch64', 'arm64': 'aarch64'}.get(__import__('platform').machine(), '?'))   # what the harness' arch() answers
 ENVV = dict(os.environ, CARGO_NET_OFFLINE='true', CARGO_TARGET_DIR=os.path.join(CACHE, 'harness-target'))
 
 
@@ -273,7 +274,8 @@ def parse_out(text):
             if cur is not None:
                 res[cur].append(line)
         elif line.strip():
-            extra.append(line)
+            # (a library thread that never ends is reported where it was given up on: name the history)
+            extra.append(line + (' hist=%s' % cur if line.startswith('THREAD-STUCK') else ''))
     return res, extra
 
 
@@ -400,11 +402,19 @@ def norm_dls(x, y):
     return yh + ' dls=' + ','.join(ents)
 
 
+UNREP_SKIPPED = []
+
+
 def diff_traces(model, impl):
     """first divergence per history: list of (history, index, model_line, impl_line)"""
     out = []
     for h in model:
         a, b = model[h], impl.get(h)
+        if any(' UNREP' in l for l in a):
+            # the model cannot represent this history (a state.json holding an event of another platform / architecture:
+            # the model's event does not carry those fields); implementation-only, counted in UNREP_SKIPPED
+            UNREP_SKIPPED.append(h)
+            continue
         if b is None:
             out.append((h, -1, '<present>', '<missing history>'))
             continue
